@@ -89,7 +89,9 @@ def main(tier, only=None):
     chk.bounds += ["every pair of token spellings A, B of 1..2 ASCII bytes each (bytes 1..127 except the two quote "
                    "characters, symbolic) that lex as ONE token of kind identifier / pp-number / punctuator; B handed "
                    "to the real print_tokens with at_bol=false, has_space=false (reachable for any pair by macro "
-                   "expansion); 9 classes by (kind of A, kind of B)"]
+                   "expansion); 9 classes by (kind of A, kind of B)",
+                   "pair8/*: the same with ALL byte values 1..255 where the bytes >= 0x80 form the 2-byte UTF-8 sequences of U+00C0..U+02FF (non-ASCII identifier characters), "
+                   "for the 5 classes involving an identifier"]
     chk.assumptions += [
         "lexing under cbmc = model_lex (tokenize()'s dispatch order for the quote-free ASCII alphabet calling the REAL "
         "read_punct/read_ident): cbmc 6.11 does not get through symbolic execution of the real tokenize() even on a "
@@ -103,7 +105,7 @@ def main(tier, only=None):
         "tokens keep their preprocessing kinds when handed to print_tokens (convert_pp_tokens is not run; the pinned "
         "print_tokens does not look at the kind)"]
     chk.outside += ["spellings longer than 2 bytes; string and character literals (so `L` + `\"x\"` -> `L\"x\"`, "
-                    "`u8` + string etc. are NOT covered); non-ASCII identifiers",
+                    "`u8` + string etc. are NOT covered); non-ASCII identifier characters outside U+00C0..U+02FF",
                     "idempotence of a second -E pass over whole files; assembly equality of compiling the -E output",
                     "line structure of the output (at_bol handling, blank lines)"]
     validate_oracle(chk)
@@ -118,6 +120,28 @@ def main(tier, only=None):
             hs.append(e1.H("h_%s_%s" % (a, b), key, unwind=8,
                            unwindset=("read_punct.0:25", "read_ident.0:6", "strlen.0:5", "strncmp.0:5", "strchr.0:20"),
                            defines=("__NO_CTYPE",), replace_calls=rc, timeout=600, object_bits=12))
+    for a, b in (("ident", "ident"), ("ident", "num"), ("num", "ident"), ("ident", "punct"), ("punct", "ident")):
+        key = "pair8/%s-%s" % (a, b)
+        if only and not any(key.startswith(o) or o in (a, b) for o in only):
+            continue
+        hs.append(e1.H("h_%s_%s" % (a, b), key, unwind=8,
+                       unwindset=("read_punct.0:25", "read_ident.0:6", "strlen.0:5", "strncmp.0:5", "strchr.0:20"),
+                       defines=("__NO_CTYPE", "WIDE8"), replace_calls=rc, timeout=900, object_bits=12))
+    if not only or "unit" in only:
+        names = ["ident", "str", "num", "punct", "str2"]
+        shapes = [(k0, k1) for k0 in range(5) for k1 in range(5)] if tier == "thorough" else [(1, 4), (4, 1), (0, 1), (1, 0), (1, 3), (2, 1), (1, 1)]
+        shapes = [(2,) + s_ + (0,) for s_ in shapes] + [(3, 1, 4, 1), (3, 0, 1, 4), (3, 4, 1, 3), (1, 1, 0, 0)]
+        for sh in shapes:
+            n, ks = sh[0], sh[1:]
+            hs.append(e1.H("h_E_unit", "unit/every-token-printed/" + "-".join(names[k] for k in ks[:n]), unwind=8,
+                           unwindset=("strlen.0:5", "strncmp.0:12", "strchr.0:20", "memcpy.0:8", "memcmp.0:12"),
+                           defines=("__NO_CTYPE", "EN=%d" % n, "EK0=%d" % ks[0], "EK1=%d" % ks[1], "EK2=%d" % ks[2]),
+                           replace_calls=("open_file:stub_open_file", "error_at:stub_error_at", "tokenize_file:stub_tokenize_file",
+                                          "convert_pp_tokens:stub_convert_pp_tokens", "hashmap_get2:stub_hashmap_get2", "equal:stub_equal"),
+                           timeout=600, object_bits=12, native=False,
+                           desc="-E of a %d-token unit through the real cc1()/preprocess(): every token is printed" % n))
+        chk.bounds += ["unit/*: translation units of 1..3 tokens over {identifier, string literal, number, punctuator, second string literal} (kinds fixed per query: %d shapes; "
+                       "white-space flags symbolic) through the real cc1() -E path" % len(shapes)]
     src = [os.path.join(HARNESS, "c19", "lexk.c")] + repo_units()
     e1.run_set(chk, "c19/relex.c", hs, workers=int(os.environ.get("VERIF_WORKERS", "6")), extra_src=src)
     e2e_replay(chk)
